@@ -600,7 +600,20 @@ BOUNDED = ["assumed-contract-validation#fixtures-identical-across-fresh-processe
 
 
 def contracts(reg):
-    return []
+    """The one function on which the frame of to_json() rests -- `_bytesio_to_base64` -- is verified deductively (real body, SMT):
+    for every payload and every cursor position it returns the base64 text of the WHOLE payload and leaves the cursor where it
+    was.  Contract, value model (`PV` payload + ghost cursor) and executor are those of the C05 pack (contracts/C05.py), the
+    obligations are C06's own (`C06/serialization.py::_bytesio_to_base64/returns`, `/ensures#stream-position-restored`)."""
+    from contracts import C05
+    return [c for c in C05.contracts(reg) if c.target.endswith("::_bytesio_to_base64") or c.assumed]
+
+
+def _executor():
+    from contracts.C05 import EXECUTOR as E
+    return E
+
+
+EXECUTOR = _executor()
 
 
 TRUSTED = ["third-party parsers are deterministic functions of their input bytes", "PY-HASHSEED: dict iteration = insertion order; set iteration order arbitrary per process"]
